@@ -538,3 +538,75 @@ package objects
 //@   ensures[outstanding] err == nil ==> sa.requests[ask.allocationKey] != nil && !ask.allocated
 //@   ensures[atmostone] err == nil ==> old(sa.reservations[ask.allocationKey]) == nil
 //@   ensures[failed] err != nil ==> (forall k string :: sa.reservations[k] == old(sa.reservations[k]) && (k in sa.reservations) == old(k in sa.reservations))
+
+// ================================================================ C07: only eligible allocations become victims
+
+// released and preempted exclude each other: an allocation is marked for preemption only while it is not released
+//@ invariant[excl] Allocation as inv(a): !(a.released && a.preempted)
+
+//@ func (a *Allocation) MarkPreempted() (err error)
+//@   props C07 C04
+//@   mode nopanic=off
+//@   requires inv_excl(a)
+//@   assigns a.preempted
+//@   ensures inv_excl(a)
+//@   ensures[marked] err == nil ==> !a.released && a.preempted
+//@   ensures[refused] err != nil ==> a.released && a.preempted == old(a.preempted)
+
+//@ func (a *Allocation) MarkUnPreempted()
+//@   props C07
+//@   mode nopanic=off
+//@   requires inv_excl(a)
+//@   assigns a.preempted
+//@   ensures inv_excl(a) && !a.preempted
+
+//@ func (a *Allocation) SetReleased(released bool) (err error)
+//@   props C07 C04 C06
+//@   mode nopanic=off
+//@   requires inv_excl(a)
+//@   assigns a.released
+//@   ensures inv_excl(a)
+//@   ensures err == nil ==> a.released == released
+//@   ensures err != nil ==> released && a.preempted && a.released == old(a.released)
+
+// the only three places that mark a victim
+//@ callersof objects.Allocation.MarkPreempted props C07 : objects.Preemptor.TryPreemption objects.QuotaPreemptionContext.preemptVictims objects.PreemptionContext.tryPreemption
+
+// queue preemption candidates: the single place that grows PotentialVictims
+//@ func (sq *Queue) findEligiblePreemptionVictims(results map[string]*QueuePreemptionSnapshot, queuePath string, ask *Allocation, priorityMap map[string]int64, askPriority int64, fenced bool)
+//@   props C07
+//@   sweep
+//@   mode nopanic=off
+//@   at[otherleaf] append QueuePreemptionSnapshot.PotentialVictims#1: assert sq.QueuePath != queuePath && sq.isLeaf && sq.preemptionPolicy != policies.DisabledPreemptionPolicy
+//@   at[eligible] append QueuePreemptionSnapshot.PotentialVictims#1: assert elem.requiredNode == "" && !elem.released && !elem.preempted
+//@   at[priority] append QueuePreemptionSnapshot.PotentialVictims#1: assert old(fenced) || elem.priority <= old(askPriority)
+//@   at[shares] append QueuePreemptionSnapshot.PotentialVictims#1: assert ask.allocatedResource == elem.allocatedResource || (exists t Key :: has(ask.allocatedResource, t) && has(elem.allocatedResource, t))
+//@   at[fence] call objects.Queue.findEligiblePreemptionVictims#1: assert arg6 == (old(fenced) || (!(arg0.QueuePath in priorityMap) && arg0.priorityPolicy == policies.FencePriorityPolicy))
+//@   at[offset] call objects.Queue.findEligiblePreemptionVictims#1: assert arg5 == ((arg0.QueuePath in priorityMap) ? priorityMap[arg0.QueuePath] : (arg0.priorityPolicy == policies.FencePriorityPolicy ? old(askPriority) : wrap64(old(askPriority) - arg0.priorityOffset)))
+//@   at[passes] call objects.Queue.findEligiblePreemptionVictims#1: assert arg1 == results && arg2 == old(queuePath) && arg3 == old(ask) && arg4 == priorityMap
+
+//@ callersof append:QueuePreemptionSnapshot.PotentialVictims props C07 : objects.Queue.findEligiblePreemptionVictims
+
+// required-node preemption candidates
+//@ func (p *PreemptionContext) filterAllocations() (result filteringResult)
+//@   props C07
+//@   sweep
+//@   mode nopanic=off
+//@   at[eligible] append PreemptionContext.allocations#1: assert elem.requiredNode == "" && !elem.released && !elem.preempted && elem.priority <= p.requiredAsk.priority
+//@   at[shares] append PreemptionContext.allocations#1: assert p.requiredAsk.allocatedResource == elem.allocatedResource || (exists t Key :: has(p.requiredAsk.allocatedResource, t) && has(elem.allocatedResource, t))
+
+// quota preemption candidates
+//@ func (qpc *QuotaPreemptionContext) filterAllocations()
+//@   props C07
+//@   sweep
+//@   mode nopanic=off
+//@   at[eligible] append QuotaPreemptionContext.allocations#1: assert elem.requiredNode == "" && !elem.released && !elem.preempted
+//@   at[shares] append QuotaPreemptionContext.allocations#1: assert qpc.preemptableResource == elem.allocatedResource || (exists t Key :: has(qpc.preemptableResource, t) && has(elem.allocatedResource, t))
+
+// queue preemption is only considered for an ask that may preempt others, has not triggered preemption before and
+// has no required node
+//@ func (p *Preemptor) CheckPreconditions() (ok bool)
+//@   props C07
+//@   sweep
+//@   mode nopanic=off
+//@   ensures ok ==> p.ask.allowPreemptOther && !old(p.ask.preemptionTriggered) && p.ask.requiredNode == ""
